@@ -60,7 +60,8 @@ def handler(case):
         atoms = build_atoms(case)
         table, dtypes = {}, {}
         before = snapshot(atoms, table, dtypes)
-        idx = np.array(case["indices"], dtype=int) if case.get("as_array", True) else list(case["indices"])
+        raw = case.get("raw_indices", case["indices"])
+        idx = np.array(raw, dtype=int) if case.get("as_array", True) else list(raw)
         removed = atoms[idx]
         del atoms[idx]
         kept = snapshot(atoms, table, dtypes)
@@ -79,8 +80,14 @@ def handler(case):
         rs = case["required_size"]
         if isinstance(rs, list):
             rs = tuple(rs)
+        keep = None if default is None else np.array(default).copy()
         out = search_molecules(atoms, cutoff, rs, default)
-        return {"labels": [int(x) for x in out]}
+        res = {"labels": [int(x) for x in out]}
+        if default is not None:
+            # the caller's default array is an input: it must come back untouched, and must not be the returned object
+            res["default_modified"] = bool(np.any(np.asarray(default) != keep))
+            res["default_returned"] = out is default
+        return res
     raise ValueError(case["kind"])
 
 
